@@ -298,16 +298,45 @@ bool plan_from_json(const Json &j, Plan &p, std::string *err) {
   return true;
 }
 
+// structural hash of everything that defines the case (uids, seed, run index, expectation excluded)
 uint64_t plan_hash(const Plan &p) {
-  Plan q = p;
-  q.expect = Json();
-  q.seed = 0;
-  q.run = 0;
-  q.binary.clear();
-  // uids key environment coins only; two plans that differ in uids alone are the same case
-  for (auto &t : q.tasks)
-    for (auto &op : t.ops) op.uid = 0;
-  return fnv1a(plan_to_json(q).dump());
+  uint64_t h = 0xcbf29ce484222325ULL;
+  auto mixi = [&](uint64_t v) { h = (h ^ v) * 0x100000001b3ULL; h ^= h >> 29; };
+  auto mixs = [&](const std::string &v) { h = fnv1a(v.data(), v.size(), h); mixi(v.size()); };
+  mixs(p.prop);
+  mixs(p.variant);
+  mixi((uint64_t)p.world.mem_policy);
+  mixi(p.world.salt);
+  mixi((uint64_t)p.world.behind);
+  mixi((uint64_t)p.world.sabotage);
+  mixi((uint64_t)p.probe * 2 + (uint64_t)p.recover);
+  for (const FileSpec &f : p.world.files) {
+    mixs(f.path);
+    mixs(f.data);
+    mixi((uint64_t)f.kind);
+  }
+  for (const Task &t : p.tasks) {
+    mixi(0x7a5c);
+    for (const Op &o : t.ops) {
+      mixi((uint64_t)o.kind << 8 | (uint64_t)(o.slot & 0xff));
+      mixi((uint64_t)o.n);
+      mixi((uint64_t)(o.fill & 0xffff) << 8 | (uint64_t)o.guard << 4 | (uint64_t)o.twin << 3 | (uint64_t)o.alias << 2 | (uint64_t)o.fresh_twin << 1 | (uint64_t)o.final_nl);
+      mixi((uint64_t)o.which << 32 | (uint32_t)o.value);
+      mixi((uint64_t)o.c);
+      mixi((uint64_t)o.k);
+      mixi((uint64_t)o.on + 2 * (uint64_t)o.from_stdin);
+      for (const std::string &l : o.lines) mixs(l);
+      mixs(o.path);
+      for (const EnvAns &e : o.env) mixi((uint64_t)e.call << 48 | (uint64_t)(e.nth & 0xffff) << 32 | (uint64_t)e.ans << 24 | (uint64_t)(e.err & 0xff) << 16 | (uint64_t)(e.arg & 0xffff));
+      for (const std::string &a : o.argv) mixs(a);
+      mixs(o.input);
+      for (int c : o.chunks) mixi((uint64_t)c);
+    }
+  }
+  mixi((uint64_t)p.fine);
+  for (int x : p.order) mixi((uint64_t)x);
+  for (const Preempt &x : p.preempt) mixi((uint64_t)x.task << 48 | (uint64_t)x.at << 8 | (uint64_t)(x.to & 0xff));
+  return h;
 }
 
 }  // namespace sim
